@@ -528,6 +528,24 @@ theorem strip_eq_self {l : Line} (hh : ∀ c, l.head? = some c → isWs c = fals
       apply hl
       rw [hb]; simp
 
+theorem stripBy_eq_self (p : Char → Bool) {l : Line} (hh : ∀ c, l.head? = some c → p c = false)
+    (hl : ∀ c, l.getLast? = some c → p c = false) : stripBy p l = l := by
+  cases l with
+  | nil => simp [stripBy]
+  | cons c cs =>
+    unfold stripBy
+    have h1 : (c :: cs).dropWhile p = c :: cs := by simp [hh c rfl]
+    rw [h1]
+    rcases List.eq_nil_or_concat (c :: cs) with h | ⟨l', b, hb⟩
+    · simp at h
+    · rw [List.concat_eq_append] at hb
+      have hbp : p b = false := hl b (by rw [hb]; simp)
+      rw [hb]
+      simp [hbp]
+
+theorem isWsNum_false_of_isWs_false {c : Char} (h : isWs c = false) : isWsNum c = false := by
+  simp [isWsNum, h]
+
 theorem strip_ws_cons {c : Char} {l : Line} (h : isWs c = true) : strip (c :: l) = strip l := by
   simp [strip, lstrip, h]
 
@@ -732,9 +750,14 @@ theorem strip_showInt (v : Int) : strip (showInt v) = showInt v :=
   strip_eq_self (fun c hc => showInt_char_not_ws v c (List.mem_of_mem_head? hc))
     (fun c hc => showInt_char_not_ws v c (List.mem_of_getLast? hc))
 
+theorem stripNum_showInt (v : Int) : stripBy isWsNum (showInt v) = showInt v :=
+  stripBy_eq_self isWsNum
+    (fun c hc => isWsNum_false_of_isWs_false (showInt_char_not_ws v c (List.mem_of_mem_head? hc)))
+    (fun c hc => isWsNum_false_of_isWs_false (showInt_char_not_ws v c (List.mem_of_getLast? hc)))
+
 theorem pyInt?_showInt (v : Int) : pyInt? (showInt v) = some v := by
   unfold pyInt?
-  rw [strip_showInt]
+  rw [stripNum_showInt]
   cases v with
   | ofNat m =>
     obtain ⟨d, ds, hd⟩ : ∃ d ds, showNat m = d :: ds := by
@@ -1282,6 +1305,73 @@ theorem body_full_tokens (M : Matrix) (n : Nat) (hlen : M.length = n) (hB : Entr
     exact hB _ (List.getElem_mem hi) v hv'
   · rw [List.getD_eq_getElem?_getD, List.getElem?_eq_none (Nat.le_of_not_lt hi)] at hv'
     simp at hv'
+
+theorem rowsBy_length_add (n : Nat) (p q pq : Nat → List Int → List Int)
+    (hpq : ∀ r (row : List Int), row.length = n → (p r row).length + (q r row).length = (pq r row).length) :
+    ∀ (rows : Matrix) (r : Nat), (∀ row ∈ rows, row.length = n) →
+      (rowsBy p r rows).length + (rowsBy q r rows).length = (rowsBy pq r rows).length := by
+  intro rows
+  induction rows with
+  | nil => intro r _; simp [rowsBy]
+  | cons row rest ih =>
+    intro r hall
+    have h1 := hpq r row (hall row (by simp))
+    have h2 := ih (r + 1) (fun x hx => hall x (by simp [hx]))
+    simp only [rowsBy, List.length_append]
+    omega
+
+theorem rowsBy_id_length (n : Nat) : ∀ (rows : Matrix) (r : Nat), (∀ row ∈ rows, row.length = n) →
+    (rowsBy (fun _ row => row) r rows).length = rows.length * n := by
+  intro rows
+  induction rows with
+  | nil => intro r _; simp [rowsBy]
+  | cons row rest ih =>
+    intro r hall
+    simp only [rowsBy, List.length_append, List.length_cons, ih (r + 1) (fun x hx => hall x (by simp [hx])),
+      hall row (by simp), Nat.succ_mul]
+    omega
+
+/-- the diagonal alone: one entry per row (for rows `r < n`) -/
+theorem rowsBy_diag_length (n : Nat) : ∀ (rows : Matrix) (r : Nat), (∀ row ∈ rows, row.length = n) →
+    r + rows.length ≤ n → (rowsBy (fun r row => (row.drop r).take 1) r rows).length = rows.length := by
+  intro rows
+  induction rows with
+  | nil => intro r _ _; simp [rowsBy]
+  | cons row rest ih =>
+    intro r hall hr
+    have hrow := hall row (by simp)
+    simp only [List.length_cons] at hr
+    simp only [rowsBy, List.length_append, List.length_take, List.length_drop, List.length_cons,
+      ih (r + 1) (fun x hx => hall x (by simp [hx])) (by omega), hrow]
+    omega
+
+theorem listOf_length {M : Matrix} {n : Nat} (hM : Square M n) (f : Fmt) : (listOf f M).length = f.need n := by
+  have hUR := listUpperRow_length hM
+  have hsq : n * (n - 1) + n = n * n := by
+    cases n with
+    | zero => rfl
+    | succ k => simp [Nat.mul_succ, Nat.succ_mul]
+  have h2 : 2 * (listUpperRow M).length = n * (n - 1) := by
+    have := rowsBy_UR_length n M 0 hM.2 (by simp [hM.1])
+    rw [listUpperRow_eq, hM.1] at *
+    exact this
+  cases f with
+  | full => exact listFull_length hM
+  | upperRow => exact hUR
+  | lowerDiag =>
+    -- take (r+1) ++ drop (r+1) = row
+    have := rowsBy_length_add n pieceLD pieceUR (fun _ row => row)
+      (by intro r row _; simp only [pieceLD, pieceUR, List.length_take, List.length_drop]; omega) M 0 hM.2
+    rw [rowsBy_id_length n M 0 hM.2, ← listLowerDiag_eq, ← listUpperRow_eq, hM.1] at this
+    simp only [listOf, Fmt.need]
+    omega
+  | upperDiag =>
+    -- drop r = the diagonal entry ++ drop (r+1)
+    have := rowsBy_length_add n (fun r row => (row.drop r).take 1) pieceUR pieceUD
+      (by intro r row _; simp only [pieceUR, pieceUD, List.length_take, List.length_drop]; omega) M 0 hM.2
+    rw [rowsBy_diag_length n M 0 hM.2 (by simp [hM.1]), ← listUpperDiag_eq, ← listUpperRow_eq, hM.1] at this
+    simp only [listOf, Fmt.need]
+    omega
 
 /-! ### every instance the constructor accepts is within the reader's token range -/
 
